@@ -47,8 +47,17 @@ for m in %(pre)r:
         __import__(m)
     except BaseException as e:
         report["preimport_errors"].append([m, repr(e)[:200]])
+if %(falsy_backend)r:
+    import types
+    import pysnark.nobackend as _nb
+    class _Falsy(types.ModuleType):
+        def __len__(self): return 0                  # e.g. "number of constraints recorded so far"
+    _fb = _Falsy("pysnark.nobackend")
+    _fb.__dict__.update({k: v for k, v in vars(_nb).items() if not k.startswith("__")})
+    sys.modules["pysnark.nobackend"] = _fb
 import pysnark.runtime as rt
 report["name"] = rt.backend_name
+report["falsy_object_used"] = (rt.backend is sys.modules.get("pysnark.nobackend")) if %(falsy_backend)r else None
 report["module"] = getattr(rt.backend, "__name__", None)
 _lb = sys.modules.get("pysnark.libsnark.backend")
 report["use_groth"] = getattr(_lb, "use_groth", None)
@@ -82,6 +91,8 @@ json.dump(report, open("report.json", "w"))
 def expected(pre, envname, loadable):
     """the three-stage rule. returns dict(kind='select', names={...}) | dict(kind='fail') , plus diag flag"""
     pre_names = [n for n, m in REGISTRY if m in pre]
+    if loadable.get("falsy_backend"):
+        pre_names = ["nobackend"] + [n for n in pre_names if n != "nobackend"]     # the script itself puts a backend object there
     blocked = set(loadable.get("blocked") or [])     # sys.modules[name] = None: the module cannot be imported, and it was not imported
     loadable = {k: (v is True) for k, v in loadable.items()}
 
@@ -145,6 +156,9 @@ def configurations(tier):
     for env in (None, "nosuchbackend", "libsnark", "libsnarkgg", "snarkjs"):
         for fb in (True, False):
             out.append(((), env, dict(flatbuffers=fb, qaptools=False, libsnark="broken")))
+    for kind in ("oserror", "bare"):
+        for env in (None, "nosuchbackend", "libsnark", "snarkjs"):
+            out.append(((), env, dict(flatbuffers=True, qaptools=False, libsnark=kind)))
     # IPython installed but not running must change nothing (a few stage-3 / stage-2 configurations)
     for env in (None, "nosuchbackend", "snarkjs"):
         for ldb in (dict(flatbuffers=True, qaptools=False, libsnark=False), dict(flatbuffers=False, qaptools=True, libsnark=False)):
@@ -154,6 +168,8 @@ def configurations(tier):
                 ["pysnark.zkinterface.backend"], ["pysnark.nobackend"]):
         for env in (None, "snarkjs", "nobackend", "zkinterface", "zkifbellman", "nosuchbackend", "libsnark"):
             out.append(((), env, dict(flatbuffers=True, qaptools=False, libsnark=False, blocked=blk)))
+    for env in (None, "snarkjs", "nosuchbackend"):
+        out.append(((), env, dict(flatbuffers=True, qaptools=False, libsnark=False, falsy_backend=True)))
     # inside a running IPython session (get_ipython is a builtin)
     for env in (None, "snarkjs", "zkinterface", "nobackend", "nosuchbackend", "qaptools"):
         for pre in ((), ("pysnark.snarkjsbackend",)):
@@ -189,8 +205,8 @@ def main():
 
 def run_probe(pre, env, ld, wd, autoprove_off=False):
     shims = [s for s in ("flatbuffers", "libsnark") if ld[s] is True]
-    if ld.get("libsnark") == "broken":
-        shims.append("libsnark_broken")   # installed but incompatible: its import raises AttributeError
+    if ld.get("libsnark") in ("broken", "oserror", "bare"):
+        shims.append("libsnark_" + ld["libsnark"])   # installed but unusable: its import raises AttributeError / OSError(errno, text) / a bare ImportError
     if ld.get("ipython"):
         shims.append("ipython")        # IPython importable, but the script is a plain script (no get_ipython in builtins)
     extra = {}
@@ -199,7 +215,7 @@ def run_probe(pre, env, ld, wd, autoprove_off=False):
     extra["QAPTOOLS_BIN"] = os.path.join(boot.SHIMS, "qaptools_bin") if ld["qaptools"] else os.path.join(wd, "no-such-dir")
     extra["PYSNARK_KEYDIR"] = "keys"
     os.makedirs(os.path.join(wd, "keys"), exist_ok=True)
-    open(os.path.join(wd, "probe.py"), "w").write(PROBE % dict(pre=list(pre), iface=INTERFACE, autoprove_off=autoprove_off, blocked=list(ld.get("blocked") or []), ipython_running=bool(ld.get("ipython_running"))))
+    open(os.path.join(wd, "probe.py"), "w").write(PROBE % dict(pre=list(pre), iface=INTERFACE, autoprove_off=autoprove_off, blocked=list(ld.get("blocked") or []), ipython_running=bool(ld.get("ipython_running")), falsy_backend=bool(ld.get("falsy_backend"))))
     pr = subprocess.run([boot.PY, "probe.py"], cwd=wd, env=boot.child_env(extra, shims=shims), stdout=subprocess.PIPE, stderr=subprocess.PIPE, timeout=120)
     rep = None
     if os.path.exists(os.path.join(wd, "report.json")):
@@ -219,11 +235,13 @@ def worker(job):
             shutil.rmtree(wd, ignore_errors=True)
         exp = expected(pre, env, ld)
         envcls = "unset" if env is None else ("known" if env in NAME2MOD else "unknown")
-        ldcls = "".join(k[0] for k in sorted(ld) if ld[k] is True and k not in ("ipython", "ipython_running")) or "none"
-        if ld.get("libsnark") == "broken":
-            ldcls += "+libsnark-broken"
+        ldcls = "".join(k[0] for k in sorted(ld) if ld[k] is True and k not in ("ipython", "ipython_running", "falsy_backend")) or "none"
+        if ld.get("libsnark") in ("broken", "oserror", "bare"):
+            ldcls += "+libsnark-" + ld["libsnark"]
         if ld.get("ipython"):
             ldcls += "+ipython-installed"
+        if ld.get("falsy_backend"):
+            ldcls += "+falsy-backend-object"
         if ld.get("ipython_running"):
             ldcls += "+ipython-running"
         if ld.get("blocked"):
@@ -255,6 +273,8 @@ def worker(job):
             R.violation(mech, "backend_name %r but the module works modulo %s (pre-imported: %s)" % (name, rep["modulus"], [m.split(".")[-1] for m in pre]), **det)
         if name in ("libsnark", "libsnarkgg") and rep.get("use_groth") is not (name == "libsnarkgg"):
             R.violation("name-and-proof-system-disagree", "backend_name %r but the libsnark backend's use_groth flag is %r" % (name, rep.get("use_groth")), **det)
+        if ld.get("falsy_backend") and rep.get("falsy_object_used") is not True:
+            R.violation("preimported-backend-object-ignored", "the script registered its own backend object (one that is falsy) before importing the runtime; it is not the backend in use", **det)
         if rep["interface_missing"]:
             R.violation("interface-incomplete", "selected backend lacks %s" % rep["interface_missing"], **det)
         if rep["smoke"] != "ok":
